@@ -5,6 +5,7 @@ import struct
 
 from vf import core
 from vf import registry as REG
+from vf import usage
 from vf.enc import elf as W
 from vf.enc import c09_img as I
 from vf.choose import RndChooser, composite_from
@@ -174,6 +175,14 @@ def observe(dyn, is_segment, ntags, nsyms, sym_queries, iter_syms):
         if iter_syms and isinstance(ns, int) and 0 <= ns <= nsyms + 64:
             o['iter_symbols'] = attempt(lambda: [canon_sym(s) for s in dyn.iter_symbols()])
             o['by_name'] = {q: attempt(lambda q=q: _by_name(dyn, q)) for q in sym_queries}
+    # the walks again, consumed step by step with the stream moved, a nested walk started and another question asked between two steps
+    st = getattr(dyn, 'stream', None) or getattr(dyn, '_stream', None) or dyn.elffile.stream
+    sw = {}
+    if not isinstance(o['iter_tags'], Exc):
+        sw['iter_tags'] = attempt(lambda: [canon_tag(t) for t in usage.stepwise(lambda: _bounded(dyn.iter_tags(), ntags + 8), usage.disturber(st, dyn.iter_tags, (dyn.num_tags,)))])
+    if isinstance(o.get('iter_symbols'), list):
+        sw['iter_symbols'] = attempt(lambda: [canon_sym(s_) for s_ in usage.stepwise(dyn.iter_symbols, usage.disturber(st, dyn.iter_tags, (dyn.num_tags,)))])
+    o['stepwise'] = {k: True if okey(v) == okey(o[k]) else (repr(v) if isinstance(v, Exc) else 'differs') for k, v in sw.items()}
     return o
 
 
@@ -253,6 +262,9 @@ class Fails:
 
 def check_view(F, view, o, X, is_segment):
     """compare the observation o of one view with the expectation X."""
+    for k, v in (o.get('stepwise') or {}).items():
+        if v is not True:
+            F.add('%s|interleaved-with-other-stream-use' % k, view, 'a plain loop and a step-by-step walk with other stream users in between disagree: %s' % v)
     tags = X['tags']
     table = X['table']
     n = len(tags)
